@@ -270,6 +270,9 @@ class ValueKinds(Unit):
                 res.append(("attr:" + name, getattr(enum, name) is v or getattr(enum, name) == v, True))
                 res.append(("lookup:" + name, enum[v], m.lookup(v)))
             res.append(("lookup:absent", enum["nothing"], ""))
+            # a string spelled like a member NAME is looked up as a VALUE like any other (no by-name shortcut)
+            for name, _v in items:
+                res.append(("lookup-of-the-string-%r" % name, enum[name], m.lookup(name)))
             enum.add("later", 9)
             m.add("later", 9)
             enum.remove("d")
@@ -280,7 +283,7 @@ class ValueKinds(Unit):
             res.append(("keys-after-refusals", list(enum.keys), list(m.d.keys())))
         # values that are no member's value give "", whatever they are -- in particular the values Python itself keeps
         # in a class (the doc string None, the module name, descriptors): an enumeration answers for its members only
-        plain_items = [("a", 1), ("b", "two")]
+        plain_items = [("a", 1), ("b", "two"), ("two", "a")]
         plain = E(dict(plain_items))
         pm = Model(plain_items)
         for stage in ("fresh", "after-add-remove"):
@@ -289,7 +292,7 @@ class ValueKinds(Unit):
                 pm.add("c", 3.5)
                 plain.remove("a")
                 pm.remove("a")
-            cands = [None, "", 0, False, (), b"", "pyscsi.utils.enum", "Enum", E.__name__, type(plain).__module__, plain, E, object]
+            cands = [None, "", 0, False, (), b"", "pyscsi.utils.enum", "Enum", E.__name__, type(plain).__module__, plain, E, object, "a", "b", "c", "two"]
             for n in sorted(set(dir(plain)) | set(vars(plain))):
                 try:
                     cands.append(getattr(plain, n))
